@@ -114,3 +114,76 @@ def long_arg_runs():
         out.append('\\begin{itemize}\\item \\y' + '{s}' * n + '\\end{itemize}')
         out.append('$\\x' + '{a}' * n + '$')
     return out
+
+
+# ----------------------------------------------------------------------------- beyond ASCII
+# Characters that the category table files under `Other`, one per class that CPython's own string predicates
+# single out (str.isalpha / isdigit / isspace / splitlines / surrogates / astral): a short cut through one of
+# those predicates somewhere in the code shows only on these.
+UNI_CHARS = ['é', 'É', 'ß', 'α', 'б', '中', '\u0660', '²', '½', '\x0b', '\x0c', '\x1c', '\x1d', '\x1e', '\x1f', '\x85',
+             '\xa0', '\u1680', '\u2003', '\u2028', '\u2029', '\u202f', '\u3000', '\u200b', '\u0301', '\ufeff', '\xad',
+             '\ud800', '\udbff', '\udc00', '\udfff', '\U0001f602', '\U0010ffff', '\x01', '\x08', '\x1b', '\x80']
+UNI_CONTEXT = ['\\', '\\x', '\\item', '\\item ', '{', '}', '[', ']', '%', '\n', ' ', '$', 'a', '\\begin{a}', '\\end{a}',
+               '\\\\', '\\textbf', '\\section', '\\cup', '\\left', '\\begin{itemize}', '\\end{itemize}', '1', '~']
+
+
+def unicode_strings(rng, n):
+    """context + character(s) + context: every (context, character, context) triple for the short contexts, then
+    random mixtures (surrogate pairs in both orders included)."""
+    out = []
+    short = ['\\', '\\x', '\\item', '{', '}', '%', '\n', ' ', 'a', '$', '[']
+    for a in short:
+        for c in UNI_CHARS:
+            out.append(a + c)
+            out.append(a + c + '{b}')
+            out.append(a + c + '\nz')
+            out.append(c + a)
+    for c in UNI_CHARS:
+        for d in UNI_CHARS[::3]:
+            out.append('x' + c + d + 'y')
+            out.append('\\x' + c + d + '{y}')
+            out.append('%' + c + d + '{\n}')
+    alpha = UNI_CHARS + UNI_CONTEXT * 2
+    for _ in range(n):
+        out.append(''.join(rng.choice(alpha) for _ in range(rng.randint(2, 9))))
+    return out
+
+
+# names next to the names the reader, tokenizer or printer treat specially: prefixes, extensions, starred and
+# re-cased forms.  As command and environment names they are ordinary.
+SPECIAL_NAMES = ['item', 'end', 'begin', 'text', 'verbatim', 'lstlisting', 'Verbatim', 'verbatimtab', 'listing',
+                 'equation', 'align*', 'math', 'displaymath', 'split', 'newcommand', 'def', 'section', 'textbf', 'label',
+                 'cup', 'in', 'infty', 'noindent', 'left', 'big', 'tex', 'itemize']
+
+
+def name_neighbours():
+    out = []
+    for n in SPECIAL_NAMES:
+        out += [n, n + 's', n + '*', n[:-1], 'x' + n, n.capitalize() if n[0].islower() else n.lower(), n + 'x*']
+    seen, res = set(), []
+    for n in out:
+        if n and n not in seen:
+            seen.add(n)
+            res.append(n)
+    return res
+
+
+def name_neighbour_docs():
+    """(source, skip_envs) pairs: the neighbours as command names and as environment names, in the places where a
+    special name would change the reading (list items, math, argument runs, environment bodies, skip lists)."""
+    cases = []
+    for n in name_neighbours():
+        letters = n.rstrip('*').isalpha() and n.isascii()
+        if letters:
+            for t in ('\\begin{itemize}\\item a \\%s 0pt \\emph{b}\\item c \\%s{d} e\\end{itemize}',
+                      '$x \\%s{ if \\emph{y} holds} [0,1)$', '\\%s{A}{B} t', '\\%s[x][y]{a}{b}[c]', '\\%s [x] {a}',
+                      '\\%s', '\\begin{a}\\%s{u}\\end{a}', '{\\%s x}', '\\%s\n\n{a}', '\\begin{equation}\\%s[a]{b}\\end{equation}',
+                      '\\x{\\%s}{b}'):
+                cases.append((t.replace('%s', n), ()))
+        for t in ('\\begin{%s}\\x{a} $b$ \\end{%s}', '\\begin{%s}{ $ \\end{%s}', '\\begin{center}\\begin{%s}\\y{ \\end{%s}\\end{center}',
+                  '\\begin{%s}[o]{p}q\\end{%s} r', '\\begin{%s}\\item a\\end{%s}'):
+            s = t.replace('%s', n)
+            cases.append((s, ()))
+            cases.append((s, (n,)))
+            cases.append((s, (n + 'q', 'zz')))
+    return cases
